@@ -35,6 +35,12 @@ pub enum Item {
     Group { j: u32, attr_beacon: bool, body: Vec<Item> },
     /// reuse of template `t` with a beacon attribute
     Reuse { j: u32, t: usize, attr_beacon: bool },
+    /// loop with a loop variable whose start / step may contain a random call
+    LoopVar { j: u32, count: u32, random_start: bool, random_step: bool, start: i32, step: i32, body: Vec<Item> },
+    /// loop repeated until a random test is non-zero (tested after each pass)
+    Until { j: u32, body: Vec<Item> },
+    /// a <defaults> block (no random occurrence of its own)
+    Defaults,
     /// element without any random occurrence
     Plain,
 }
@@ -128,6 +134,21 @@ fn render_items(items: &[Item], in_template: bool, out: &mut String) {
                     out.push_str(&format!("<reuse href=\"#t{t}\" m=\"b{j}\" k=\"0\"/>\n"));
                 }
             }
+            Item::LoopVar { j, count, random_start, random_step, start, step, body } => {
+                let st = if *random_start { "{{randint(0, 5)}}".to_string() } else { start.to_string() };
+                let sp = if *random_step { "{{randint(1, 3)}}".to_string() } else { step.to_string() };
+                out.push_str(&format!(
+                    "<loop count=\"{count}\" loop-var=\"i{j}\" start=\"{st}\" step=\"{sp}\"><rect class=\"l{j}\" wh=\"1\" data-i=\"v{j}_$i{j}\"/>\n"
+                ));
+                render_items(body, in_template, out);
+                out.push_str("</loop>\n");
+            }
+            Item::Until { j, body } => {
+                out.push_str(&format!("<loop until=\"{{{{randint(0, 1)}}}}\"><rect class=\"l{j}\" wh=\"1\"/>\n"));
+                render_items(body, in_template, out);
+                out.push_str("</loop>\n");
+            }
+            Item::Defaults => out.push_str("<defaults><rect rx=\"1\"/><circle class=\"dc\"/><_ match=\"text line\" class=\"dd\"/></defaults>\n"),
             Item::Plain => out.push_str("<rect xy=\"5 5\" wh=\"1\"/>\n"),
         }
     }
@@ -232,7 +253,38 @@ impl<'a> Model<'a> {
                     let body = self.templates[*t].clone();
                     self.exec(&body, Some(&m));
                 }
-                Item::Plain => {}
+                Item::LoopVar { j, count, random_start, random_step, start, step, body } => {
+                    let st = if *random_start {
+                        self.draws += 1;
+                        self.rng.random_range(0..=5)
+                    } else {
+                        *start
+                    };
+                    let sp = if *random_step {
+                        self.draws += 1;
+                        self.rng.random_range(1..=3)
+                    } else {
+                        *step
+                    };
+                    self.add_count(&format!("l{j}"), *count as u64);
+                    for k in 0..*count {
+                        self.obs.push((format!("v{j}_|loop-var"), (st + k as i32 * sp).to_string()));
+                        self.exec(body, tmark);
+                    }
+                }
+                Item::Until { j, body } => {
+                    let mut passes = 0;
+                    loop {
+                        passes += 1;
+                        self.exec(body, tmark);
+                        self.draws += 1;
+                        if self.rng.random_range(0..=1) != 0 || passes > 900 {
+                            break;
+                        }
+                    }
+                    self.add_count(&format!("l{j}"), passes);
+                }
+                Item::Defaults | Item::Plain => {}
             }
         }
     }
@@ -286,7 +338,7 @@ fn gen_items(w: &mut Rng, j: &mut u32, depth: usize, n_templates: usize, in_temp
     for _ in 0..n {
         *j += 1;
         let jj = *j;
-        match w.below(16) {
+        match w.below(19) {
             0..=6 => v.push(Item::Beacon {
                 j: jj,
                 site: w.pick(SITES).to_string(),
@@ -324,6 +376,23 @@ fn gen_items(w: &mut Rng, j: &mut u32, depth: usize, n_templates: usize, in_temp
                     body,
                 });
             }
+            14 if depth < 2 => {
+                let body = gen_items(w, j, depth + 1, n_templates, in_template);
+                v.push(Item::LoopVar {
+                    j: jj,
+                    count: 1 + w.below(3) as u32,
+                    random_start: w.chance(1, 2),
+                    random_step: w.chance(1, 2),
+                    start: w.range(0, 5) as i32,
+                    step: w.range(1, 3) as i32,
+                    body,
+                });
+            }
+            15 if depth < 2 => {
+                let body = gen_items(w, j, depth + 1, n_templates, in_template);
+                v.push(Item::Until { j: jj, body });
+            }
+            16 if depth == 0 && !in_template => v.push(Item::Defaults),
             12 | 13 if n_templates > 0 && !in_template => v.push(Item::Reuse {
                 j: jj,
                 t: w.usize(n_templates),
